@@ -3,7 +3,7 @@
 
 usage: tools/seed_verify.py <dir with patch.diff, demo.py[, notes.md]> <Cxx>
                             [--keep <seed id>] [--tier quick|thorough]
-                            [--also Cyy,Czz]
+                            [--also Cyy,Czz] [--fast]
 
 Steps (all on a scratch copy of /repo's working tree, removed afterwards):
   1. demo.py passes on the unchanged copy                (exit 0)
@@ -51,12 +51,17 @@ def main():
             res['patch_output'] = p.stdout[-500:]
             print(json.dumps(res, indent=1))
             return 3
-        t = sh([os.path.join(VERIF, 'tools', 'repo_tests.py'), scratch])
-        res['repo_tests'] = t.stdout.strip().splitlines()[:6]
-        res['repo_tests_regressed'] = t.returncode != 0
-        r = sh(['/venv/bin/python', demo], env=env, cwd=src, timeout=600)
-        res['demo_changed_exit'] = r.returncode
-        res['demo_changed_output'] = r.stdout.strip().splitlines()[-3:]
+        if '--fast' in args:
+            # regression of kept seeds: only the checks are run again
+            res['repo_tests'] = res['repo_tests_regressed'] = None
+            res['demo_changed_exit'] = None
+        else:
+            t = sh([os.path.join(VERIF, 'tools', 'repo_tests.py'), scratch])
+            res['repo_tests'] = t.stdout.strip().splitlines()[:6]
+            res['repo_tests_regressed'] = t.returncode != 0
+            r = sh(['/venv/bin/python', demo], env=env, cwd=src, timeout=600)
+            res['demo_changed_exit'] = r.returncode
+            res['demo_changed_output'] = r.stdout.strip().splitlines()[-3:]
         res['checks'] = {}
         for c in [prop] + also:
             t0 = time.time()
